@@ -375,6 +375,16 @@ mut("c13-raw-name-in-path", "C13", "src/entry/tree.rs", """                let s
                     subtree.raw_name()""")
 mut("c13-splitvec-insert-order", "C13", "src/util/split_vec.rs", "let value_slot = if after_split { last_ptr } else { split_ptr };", "let value_slot = if after_split || old_split == 2 { last_ptr } else { split_ptr };")
 
+# ---- C15
+O = "src/benchmark/options.rs"
+mut("c15-min-time-parent-first", "C15", O, "min_time: self.min_time.or(other.min_time),", "min_time: other.min_time.or(self.min_time),")
+mut("c15-skip-ext-masks", "C15", O, "skip_ext_time: self.skip_ext_time.or(other.skip_ext_time),", "skip_ext_time: if self.sample_size.is_some() { self.skip_ext_time } else { self.skip_ext_time.or(other.skip_ext_time) },")
+mut("c15-counters-wholesale", "C15", "src/counter/collection.rs", ".map(|kind| self.get(kind).or(other.get(kind))),", ".map(|kind| if self.counts.iter().any(|c| c.is_some()) { self.get(kind) } else { other.get(kind) }),")
+mut("c15-runner-as-default", "C15", "src/divan.rs", "options = self.bench_options.overwrite(entry_options);", "options = entry_options.overwrite(&self.bench_options);")
+mut("c15-threads-zero-not-mapped", "C15", "src/divan.rs", "None => crate::util::known_parallelism(),", "None => NonZeroUsize::MIN,")
+mut("c15-ignored-flag-runs-all", "C15,C14", "src/config/mod.rs", "matches!(self, Self::Yes | Self::No)", "matches!(self, Self::Yes | Self::No | Self::Only)")
+mut("c15-child-parent-swapped", "C15", "src/divan.rs", "options = child_options.overwrite(parent_options);\n                        Some(&options)\n                    }\n                };\n\n            match child {", "XX")
+
 def sh(cmd, **kw):
     return subprocess.run(cmd, shell=True, capture_output=True, text=True, **kw)
 
